@@ -442,6 +442,20 @@ class MultiAgentProblem(  # type: ignore[misc]
                 self._update_problem_kind_effect(e)
         elif isinstance(action, up.model.action.DurativeAction):
             self._kind.set_time("CONTINUOUS_TIME")
+            for cl in action.conditions.values():
+                for c in cl:
+                    self._update_problem_kind_condition(c)
+            for el in action.effects.values():
+                for e in el:
+                    self._update_problem_kind_effect(e)
+            lower, upper = action.duration.lower, action.duration.upper
+            if lower != upper:
+                self._kind.set_time("DURATION_INEQUALITIES")
+            if OperatorKind.FLUENT_EXP in (
+                self._operators_extractor.get(lower)
+                | self._operators_extractor.get(upper)
+            ):
+                self._kind.set_expression_duration("FLUENTS_IN_DURATIONS")
         else:
             raise NotImplementedError
 
